@@ -275,9 +275,10 @@ xa_inside(const void *p)
 NOASAN static void
 xt_label(char *buf, size_t bsz)
 {
-	/* normal form: % [modifiers, sorted, unique] letter suffix; "lit" for a literal; a specifier cut
-	 * short by the NUL is %<end> whatever its modifiers; "dflt:" marks the library's own default format
-	 * (calendar names such as ymd/bizda are replaced by one) */
+	/* normal form: % [modifiers that select other code: O _ r; sorted, unique] letter suffix -- the padding
+	 * modifiers (blank, '-', '0') only change an argument and are left out; "lit" for a literal; a
+	 * specifier cut short by the NUL is %<end> whatever its modifiers; "dflt:" marks the library's own
+	 * default format (calendar names such as ymd/bizda are replaced by one) */
 	static const char mods[] = " -0O_r";
 	unsigned int seen = 0;
 	const char *p = xt_fp, *e = xt_ep;
@@ -313,6 +314,7 @@ xt_label(char *buf, size_t bsz)
 		}
 		seen |= 1U << (m - mods);
 	}
+	seen &= ~7U;	/* blank, '-', '0' */
 	k = (size_t)snprintf(buf, bsz, "%s%%", pfx);
 	if (p >= e || *p == '\0') {
 		snprintf(buf + k, bsz - k, "<end>");
@@ -322,7 +324,7 @@ xt_label(char *buf, size_t bsz)
 		buf[k++] = '[';
 		for (int i = 0; mods[i]; i++) {
 			if (seen & (1U << i)) {
-				buf[k++] = mods[i] == ' ' ? 's' : mods[i];
+				buf[k++] = mods[i];
 			}
 		}
 		buf[k++] = ']';
@@ -354,6 +356,9 @@ xt_label_last(char *buf, size_t bsz)
 	}
 }
 
+/* tool level: the report is made in a forked child running main(); it goes to this descriptor as a line */
+static int xr_emit_fd = -1;
+
 static void
 xr_add(const char *kind, uintptr_t pc)
 {
@@ -361,6 +366,13 @@ xr_add(const char *kind, uintptr_t pc)
 
 	xs_name(pc, site, sizeof(site));
 	xt_label(tok, sizeof(tok));
+	if (xr_emit_fd >= 0) {
+		char line[256];
+		int n = snprintf(line, sizeof(line), "\nC10REPORT %s in %s\n", kind, site);
+		if (write(xr_emit_fd, line, (size_t)n) < 0) {
+			;
+		}
+	}
 	for (int i = 0; i < xr.n; i++) {
 		if (!strcmp(xr.r[i].kind, kind) && !strcmp(xr.r[i].site, site) && !strcmp(xr.r[i].tok, tok)) {
 			return;
@@ -924,5 +936,40 @@ xb_run(uint64_t lo, uint64_t hi, int (*fn)(uint64_t), void (*ondeath)(uint64_t, 
 		}
 	}
 }
+
+/* ---------- the alphabets and the canonical enumeration of strings ---------- */
+static const char SF[] = "%YdbO_ths-aZ";
+static const char SI[] = "201-:TWb @+\x01";
+static const char SD[] = "190-+dmowrs/";
+#define NA	12
+
+static uint64_t
+nstrings(int maxlen)
+{
+	uint64_t n = 0, p = 1;
+	for (int l = 0; l <= maxlen; l++, p *= NA) {
+		n += p;
+	}
+	return n;
+}
+/* canonical order: by length, then by alphabet index */
+static size_t
+idx2str(uint64_t idx, const char *alpha, char *buf)
+{
+	uint64_t p = 1;
+	size_t len = 0;
+	while (idx >= p) {
+		idx -= p;
+		p *= NA;
+		len++;
+	}
+	for (size_t i = len; i-- > 0;) {
+		buf[i] = alpha[idx % NA];
+		idx /= NA;
+	}
+	buf[len] = '\0';
+	return len;
+}
+
 
 #endif	/* VERIF_C10_COMMON_H */
